@@ -276,8 +276,9 @@ class ThisRef(Var):
 class Indexer(Reference):
 	@property
 	@Meta.embed(Node, expandable)
-	def receiver(self) -> 'Reference | FuncCall | Generator':
-		return self._at(0).one_of(Reference, FuncCall, Generator)
+	def receiver(self) -> 'Reference | FuncCall | Generator | Literal | Group':
+		# XXX Relay.receiverと同様にリテラル・グループを許容
+		return self._at(0).one_of(Reference, FuncCall, Generator, Literal, Group)
 
 	@property
 	@Meta.embed(Node, expandable)
